@@ -43,20 +43,59 @@ func emitC04(kind string, lines []string) {
 	ms, ok := decSafe(lines)
 	var out Sx = Sym("panic")
 	if ok {
-		l := []Sx{Sym("msgs")}
-		for _, m := range ms {
-			if m != nil && !faithful(m) {
-				l = append(l, Sx(Sym("unfaithful")))
-			} else {
-				l = append(l, msgSx(m))
-			}
-		}
+		out = c04print(ms)
 		c04stats["messages"] += len(ms)
-		out = l
 	} else {
 		c04stats["panics"]++
 	}
 	emit(L(Sym("c04"), lsx, nt, out))
+	// results of earlier calls printed again after this call (see harness/cin/c02.go): a message an
+	// earlier caller holds must not change because the decoder was called again
+	for i := range c04ring {
+		h := &c04ring[i]
+		var again Sx = Sym("panic")
+		func() {
+			defer func() { recover() }()
+			again = c04print(h.msgs)
+		}()
+		if s := c04str(again); s != h.first {
+			c04stats["earlier-result-altered"]++
+			emit(L(Sym("c04"), h.lsx, h.nt, again))
+			h.first = s
+		}
+	}
+	if ok && len(lines) < 50 {
+		c04ring = append(c04ring, c04held{lsx, nt, ms, c04str(out)})
+		if len(c04ring) > 4 {
+			c04ring = c04ring[1:]
+		}
+	}
+}
+
+type c04held struct {
+	lsx, nt []Sx
+	msgs    []*rwp.OutboundMessage
+	first   string
+}
+
+var c04ring []c04held
+
+func c04str(v Sx) string {
+	var b strings.Builder
+	sx(&b, v)
+	return b.String()
+}
+
+func c04print(ms []*rwp.OutboundMessage) Sx {
+	l := []Sx{Sym("msgs")}
+	for _, m := range ms {
+		if m != nil && !faithful(m) {
+			l = append(l, Sx(Sym("unfaithful")))
+		} else {
+			l = append(l, msgSx(m))
+		}
+	}
+	return l
 }
 
 func replayC04(line string) {
